@@ -7,16 +7,61 @@ HOOK_COMMITS = subprocess.run(
     capture_output=True, text=True).stdout.strip().splitlines()
 
 CHECKS = {
+ "C03": dict(
+   technique="property-based testing (proptest) + exhaustive enumeration of small layouts; oracle = reference torrent geometry and byte-for-byte file comparison on the real filesystem",
+   text="Real Extractor run on harness-written piece files for generated geometries (piece length 1..64 and 16 KiB neighbours, 0-8 files of length 0..3x piece length at nested paths, single/multi-file form) plus complete enumeration of all layouts with piece length 1..4, <=3 files, lengths 0..6. Checks the piece-length partition and that every listed file has exactly its declared bytes, nothing else is created.",
+   note="Trusted: reference geometry (harness/src/refmodel/geometry.rs), sha1_smol, the local filesystem. `path` entries are byte strings (rdest's reader).",
+   design="6/C03"),
+ "C04": dict(
+   technique="property-based testing (proptest) over hostile name/path strings with a filesystem-watching oracle (recursive listing outside the download directory before/after)",
+   text="Hostile name/path strings from a component alphabet (.., ., empty, plain, ..x, x.., absolute, //) for single- and multi-file torrents; the real Extractor runs three levels below a private root whose whole tree outside the cwd (plus a canary directory that absolute paths point to) must be unchanged; for plain multi-file names everything must land in ./name/. Refusal and neutralisation both pass.",
+   note="`..` per path capped at the cwd depth below the private root so every escape lands where the oracle looks. Symlinks pre-existing in the download directory are out of scope.",
+   design="6/C04"),
+ "C05": dict(
+   technique="property-based testing (proptest) with a span-tracking document writer; oracle = SHA-1 of the exact top-level info span, cross-checked by an independent bencode parser; libFuzzer target fz_metainfo with the same oracle (thorough)",
+   text="Generated metainfo documents with extra keys before/after info (also out of order), nested dictionaries containing keys spelled info at depth 1-3, rotated key order inside info, leading-zero string lengths, trailing values; whenever rdest accepts, info_hash() must equal SHA-1(doc[span]).",
+   note="Exactly one top-level info key, nothing before the top-level dictionary. Trusted: reference parser/writer, sha1_smol.",
+   design="6/C05"),
+ "C07": dict(
+   technique="property-based testing (proptest): differential against an independent BEP3 writer + parse round-trip + bitfield bit-mapping model",
+   text="For each of the 11 message kinds with fields over the full u32 range (edge-biased), blocks up to 65527 bytes, arbitrary hashes/ids and bit vectors up to 2000 bits: emitted bytes == reference BEP3 layout, Frame::parse(data++suffix) yields the same message and consumes exactly its length, re-serialisation identity, Handshake::validate accepts exactly its own hash/id, Bitfield to_vec/from_vec/validate agree with the reference for neighbouring piece counts.",
+   note="Trusted: reference writer/decoder in harness/src/refmodel/wire.rs.",
+   design="6/C07"),
+ "C13": dict(
+   technique="property-based testing (proptest) on constructed manager states; oracle = validity predicate (rarest-first among candidates) that any tie-break must satisfy",
+   text="Generated status vectors (missing count forced to 9/10/11 among others, Reserved mixed in) and 1-6 peers with generated advertised sets; the real choose_piece_index is called 8x per state; the pick must be a candidate of minimal availability, None iff no candidate.",
+   note="States are constructed through set-up hooks; rdest's shuffle is unseeded, hence a validity predicate rather than one expected answer.",
+   design="6/C13"),
+ "C14": dict(
+   technique="stateful property-based testing (proptest op sequences + interpreter) stepping the real manager; invariants checked after every step against a reference reading of the choking policy",
+   text="Histories of up to 120 manager commands over up to 25 peers, leeching and seeding, fed to the real handle_peer_cmd / rotation; after every step: <=11 unchoked, <=10 non-optimistic unchoked, each peer's folded view == am_choked; after every executed rotation: slot holders interested, no better-rated interested peer choked, uninterested peers choked.",
+   note="Command-level driving is sound because every command used can be emitted by a connection task at any time. Rate used for ranking follows the manager's documented choice.",
+   design="6/C14"),
  "C15": dict(
    technique="property-based testing (proptest): round-trip + differential against an independent canonical bencode writer",
-   text="Generated-value search (100k quick / 3M thorough cases, i64 edge bias, delimiter-rich strings, depth 5) against three oracles: encoder == independent canonical writer, decode(encode(v)) == v incl. concatenations, encode(decode(canonical)) == doc. Exploration, not proof: a for-all-values law sampled densely where slips live (formatting of extremes, key ordering on prefix/high-byte keys).",
+   text="Generated-value search (i64 edge bias, delimiter-rich strings, depth 5) against three oracles: encoder == independent canonical writer, decode(encode(v)) == v incl. concatenations, encode(decode(canonical)) == doc.",
    note="Trusted: reference writer/parser in harness/src/refmodel/bencode.rs, proptest. Dictionary keys unique (BValue::Dict is a HashMap).",
    design="6/C15"),
  "C16": dict(
    technique="exhaustive enumeration over a delimiter alphabet + mutation-based property testing, differential against an independent recursive-descent recogniser; libFuzzer target fz_bdecode with the same oracle (thorough)",
-   text="Complete enumeration of all strings over {0,1,2,:,i,l,d,e,-,a} up to length 8 (quick, 111M strings) / 10 (thorough) plus 100k/3M mutated valid documents; rdest must accept exactly the recogniser's language with matching values and never panic. One known finding (unterminated container at EOF, pinned by a baseline test) is recognised by signature and reported as KNOWN-FINDING; everything else is a violation.",
+   text="Complete enumeration of all strings over {0,1,2,:,i,l,d,e,-,a} up to length 8 (quick, 111M strings) / 10 (thorough) plus mutated valid documents; rdest must accept exactly the recogniser's language with matching values and never panic. One known finding (unterminated container at EOF, pinned by a baseline test) is recognised by signature and reported as KNOWN-FINDING; everything else is a violation.",
    note="Trusted: the reference recogniser. Numbers outside i64/usize are out of the stated domain (skipped, counted).",
    design="6/C16"),
+ "C17": dict(
+   technique="property-based testing (proptest): model-based generation of metainfo documents (faithfulness), mutation testing for totality, create/parse round trip on real files; libFuzzer target fz_metainfo (thorough)",
+   text="Three generated sub-checks: (faithful) model torrents with edge numeric fields and rotated key order must read back field by field and every accessor must be panic-free for every valid index (overflow checks on); (totality) mutated/arbitrary bytes never panic; (create) create_file on generated files then from_file gives name, length, ceil(len/256KiB) SHA-1s, announce.",
+   note="`path` entries are byte strings; numeric fields non-negative in the faithful sub-check.",
+   design="6/C17"),
+ "C18": dict(
+   technique="property-based testing (proptest): metamorphic/decoding oracle on the announce URL (independent form-urlencoded decoder) + real TrackerClient against a loopback HTTP listener",
+   text="Random 20-byte info-hashes steered to contain special bytes, alphanumeric ids, announce URLs with/without port, path, existing query or trailing '?'; the URL built by the client and the request line actually received by a loopback listener must keep host/path/existing parameters and carry exactly one info_hash decoding to the hash, plus peer_id, port, left.",
+   note="Peer ids alphanumeric (property's domain). reqwest/hyper are part of the system under test on the wire sub-check.",
+   design="6/C18"),
+ "C19": dict(
+   technique="property-based testing (proptest): model-based generation of tracker replies with malformed entries, mutation testing for totality; libFuzzer target fz_tracker_resp (thorough)",
+   text="Model replies with 0-30 entries mixing well-formed and malformed peers, extra keys, rotated order, failure reasons, trailing values: peers() must be exactly the well-formed entries in order, failure reasons must be reported as errors, nothing panics. The tracker fault-sequence half (sub faults) runs unmodified Session::run in a real process.",
+   note="Ports > 65535 and non-UTF-8 failure reasons not generated (unspecified).",
+   design="6/C19"),
 }
 
 def main():
